@@ -216,8 +216,29 @@ def run(rep, tier):
     rep.floor("R17.5", n_w, 3, "overwrite handlers")
     check_list_names(rep, F, W, R)
     check_row_tables(rep, tier)
-    # scalars are attributes of fixed shape: reopen is fine, but must be written after (re)open
-    rep.assumptions.append("scalar attributes have a fixed shape; reopening an existing attribute and writing it replaces the value")
+    # scalars are attributes that are REOPENED when the name exists: that replaces the old value only if type and space of the attribute do not depend on the value
+    ws = [f for f in F.funcs if f.qname.endswith("CheckpointWriter::WriteScalar") and f.j.get("template") != "pattern" and f.j.get("body")]
+    rep.floor("R17.5", len(ws), 2, "scalar attribute writers")
+    for f in ws:
+        rep.analysed(f)
+        vname = f.j["params"][1]["name"]
+        reopens = any(n.get("k") == "mcall" and (n.get("callee") or "").endswith("openAttribute") for n in f.walk())
+        fo = Fold(f, inline=False, record_calls=r"createAttribute$|Attribute::write$").run()
+        cr = [e for e in fo.events if e["kind"] == "call" and e["callee"].endswith("createAttribute")]
+        wrt = [e for e in fo.events if e["kind"] == "call" and e["callee"].endswith("write")]
+        kind = kind_of(f.j["sig"])
+        if len(cr) != 1 or len(cr[0]["args"]) < 3 or len(wrt) != 1:
+            rep.broken("R17.5", "WriteScalar (%s): createAttribute/write calls not found" % kind)
+            continue
+        dep = [str(a)[:80] for a in cr[0]["args"][1:3] if re.search(r"\b%s\b" % re.escape(vname), str(a))]
+        ok = not (reopens and dep)
+        rep.check(ok, "R17.5", "scalar-reopen|%s" % nows(f.j["sig"])[:60], "an attribute that is reopened when the name exists has a type and space that do not depend on the value",
+                  "CheckpointWriter::WriteScalar (%s): the attribute is created with %s, which depends on the value, and an existing attribute of that name is reopened, not re-created: "
+                  "writing the name again keeps the type/extent of the first value (a longer string is truncated)" % (kind, dep), f.loc(cr[0]["node"]), sample=("basic_string" in f.j["sig"].split(",")[1]))
+        okw = str(wrt[0]["args"][0]) == str(cr[0]["args"][1])
+        rep.check(okw, "R17.5", "scalar-write-type|%s" % nows(f.j["sig"])[:60], "the value is written with the memory type the attribute was created with",
+                  "CheckpointWriter::WriteScalar (%s): created with %s but written as %s" % (kind, str(cr[0]["args"][1])[:60], str(wrt[0]["args"][0])[:60]), f.loc(wrt[0]["node"]))
+    rep.assumptions.append("an attribute whose type and space do not depend on the value can be reopened and rewritten in place (HDF5 semantics, trusted)")
 
 
 def flag_name(n):
@@ -448,9 +469,42 @@ def check_row_tables(rep, tier):
         # ---- columns
         cols = [n for n in su.walk() if n.get("k") == "mcall" and (n.get("callee") or "").endswith("addCol")]
         seen, names, badc = {}, {}, []
+        # columns listed in a local table of {name, offsetof} pairs that a loop hands to addCol: each pair is a column of the type of that call
+        expanded = []
         for c in cols:
-            off = [x for x in walk(c["args"][1]) if x.get("k") == "offsetof"] if len(c["args"]) == 2 else []
-            nm = [x.get("v") for x in walk(c["args"][0]) if x.get("k") == "str"] if c["args"] else []
+            direct = [x for x in walk(c["args"][1]) if x.get("k") == "offsetof"] if len(c["args"]) == 2 else []
+            if direct or len(c["args"]) != 2:
+                expanded.append((c, None))
+                continue
+            loops = [a_ for a_ in su.ancestors(c) if a_.get("k") == "rangefor"]
+            rng = unwrap(loops[0]["range"]) if loops else {}
+            tab = su.decls.get(rng.get("decl")) if rng.get("k") == "ref" else None
+            pairs = []
+            if tab is not None and tab.get("init") is not None:
+                def pair_nodes(n_):
+                    offs_ = [x for x in walk(n_) if x.get("k") == "offsetof"]
+                    strs_ = [x for x in walk(n_) if x.get("k") == "str"]
+                    if len(offs_) == 1 and len(strs_) == 1:
+                        return [(strs_[0], offs_[0])]
+                    out_ = []
+                    for key_ in ("args", "elems", "inits"):
+                        for ch_ in (n_.get(key_) or []):
+                            if isinstance(ch_, dict):
+                                out_ += pair_nodes(ch_)
+                    if not out_ and isinstance(n_.get("sub"), dict):
+                        out_ = pair_nodes(n_["sub"])
+                    return out_
+                pairs = pair_nodes(tab["init"])
+            if not pairs:
+                expanded.append((c, None))
+            for st_, of_ in pairs:
+                expanded.append((c, (st_, of_)))
+        for c, pr_ in expanded:
+            if pr_ is not None:
+                off, nm = [pr_[1]], [pr_[0].get("v")]
+            else:
+                off = [x for x in walk(c["args"][1]) if x.get("k") == "offsetof"] if len(c["args"]) == 2 else []
+                nm = [x.get("v") for x in walk(c["args"][0]) if x.get("k") == "str"] if c["args"] else []
             if len(off) != 1 or len(off[0]["path"]) != 1 or nows(off[0]["record"]) != nows(cls + "::data") or len(nm) != 1:
                 badc.append("a column whose offset is not offsetof(%s::data, <field>) (%s)" % (short, show(c)[:80]))
                 continue
@@ -477,7 +531,7 @@ def check_row_tables(rep, tier):
         # ---- writer / reader
         dw, dr = wr.j["params"][0]["name"], rd.j["params"][0]["name"]
         fw = Fold(wr, inline=False, record_calls=r"strcpy$").run()
-        fr = Fold(rd, inline=False, record_calls=r"setValue$").run()
+        fr = Fold(rd, inline=False, record_calls=r"setValue$|operator<<$|operator,$").run()
         wmap, wcount = {}, {}
         for e in fw.events:
             if e["kind"] == "store" and e["target"].startswith(dw + "."):
@@ -495,6 +549,7 @@ def check_row_tables(rep, tier):
                 badw.append("field %s is filled only when %s" % (fld, fw.cond_str(st[0]["guards"][0][0])[:60]))
         rep.check(not badw, "R17.7", "writer-complete|" + short, "WriteData fills every field of the record", "%s::WriteData: %s: the row is written with an indeterminate value" % (short, "; ".join(badw[:3])), wr.loc())
         rmap, used = {}, set()
+        chain = None
         for e in fr.events:
             txts = []
             if e["kind"] == "store":
@@ -509,6 +564,21 @@ def check_row_tables(rep, tier):
                 sl = _slot_of_target(e["target"])
                 if sl:
                     rmap.setdefault(list(flds)[0], set()).add(sl)
+            if e["kind"] == "store" and re.match(r"^\w+_$", e["target"]) and hasattr(e["value"], "shape") and 1 in e["value"].shape:
+                # whole-vector assignment M = Vector(d.a, d.b, d.c): component i comes from the field in position i
+                for i_, x_ in enumerate(list(e["value"])):
+                    if str(x_).startswith(dr + ".") and re.match(r"^\w+$", str(x_)[len(dr) + 1:]):
+                        rmap.setdefault(str(x_)[len(dr) + 1:], set()).add((e["target"], i_))
+            if e["kind"] == "call" and e["callee"].endswith("operator<<") and len(e["args"]) == 2:
+                t0 = e["args"][0]
+                tm = re.match(r"^(\w+)\.x$", str(list(t0)[0])) if hasattr(t0, "shape") else re.match(r"^(\w+_)$", str(t0))
+                chain = [tm.group(1), 0] if tm else None
+                if chain and str(e["args"][1]).startswith(dr + "."):
+                    rmap.setdefault(str(e["args"][1])[len(dr) + 1:], set()).add((chain[0], 0))
+            if e["kind"] == "call" and e["callee"].endswith("operator,") and len(e["args"]) == 2 and chain:
+                chain[1] += 1
+                if str(e["args"][1]).startswith(dr + "."):
+                    rmap.setdefault(str(e["args"][1])[len(dr) + 1:], set()).add((chain[0], chain[1]))
             if e["kind"] == "call" and e["callee"].endswith("setValue") and len(e["args"]) == 2 and str(e["args"][0]).startswith(dr + "."):
                 rmap.setdefault(str(e["args"][0])[len(dr) + 1:], set()).add((str(e["obj"]), str(e["args"][1]).split("::")[-1]))
         for n in rd.walk():
